@@ -5,6 +5,7 @@ import (
 	"sort"
 	"encoding/hex"
 	"fmt"
+	"os"
 	"reflect"
 	"strconv"
 	"strings"
@@ -414,6 +415,11 @@ func c03StepView(s *treeState, op Op, cur ygot.GoStruct, replica *ygot.GoStruct,
 	}); p != nil {
 		return nil, violation("C03", "panic", "C03:panic:diff:"+mode, "Diff panicked: %v\n%s", p.v, trimStack(p.stack))
 	}
+	if os.Getenv("HSIM_TRACE") != "" {
+		for i, n := range notifs {
+			s.st.logf("notification %d: %s", i, canonNotif(n))
+		}
+	}
 	if err != nil {
 		return nil, violation("C03", "diff-error", sigp+"diff-error", "Diff of two schema-conforming trees failed: %v", err)
 	}
@@ -500,6 +506,11 @@ func c03StepView(s *treeState, op Op, cur ygot.GoStruct, replica *ygot.GoStruct,
 	}
 	*replica = schema.Root.(ygot.GoStruct)
 	mr := model.Walk(*replica, s.sch, "")
+	if os.Getenv("HSIM_TRACE") != "" {
+		for lp := range mr.Ordered {
+			s.st.logf("after apply: ordered %s a=%v b=%v replica=%v (in b: %v)", lp, ma.ListKeys[lp], mb.ListKeys[lp], mr.ListKeys[lp], mb.Ordered[lp])
+		}
+	}
 	want := fb
 	if opt == "ignoreadd" {
 		// exactly the leaves new in b are omitted - except that DiffWithAtomic restates a
@@ -560,8 +571,19 @@ func c03StepView(s *treeState, op Op, cur ygot.GoStruct, replica *ygot.GoStruct,
 		*replica = model.Clone(next).(ygot.GoStruct)
 	}
 	if mode == "plain" {
-		// plain Diff is documented not to convey ordered-list order: resynchronise it
+		// plain Diff is documented not to convey ordered-list order: resynchronise it. That
+		// includes an ordered list that is gone from the modified tree while the copy keeps an
+		// entry without any leaf (plain Diff deletes leaf by leaf; the leaf sets are equal, which
+		// is all it promises) - left alone, that entry would be held against a later
+		// DiffWithAtomic step that has nothing to do with it
+		lps := map[string]bool{}
 		for lp := range mb.Ordered {
+			lps[lp] = true
+		}
+		for lp := range mr.Ordered {
+			lps[lp] = true
+		}
+		for lp := range lps {
 			if fmt.Sprint(mb.ListKeys[lp]) != fmt.Sprint(mr.ListKeys[lp]) {
 				*replica = model.Clone(next).(ygot.GoStruct)
 				s.st.Probes["plain_step_order_resync"]++
